@@ -35,8 +35,8 @@ ASSUMPTIONS = [
     "pre_defaults handed to collapsed_restrict_to_data.pull_data contains flags only (no '-x' tokens), as IUSE defaults do",
 ]
 RULE = ("random token streams (length 0-12) over the flags a-e with f, -f, -*, *, and rarely '-', '--a', '-@', '@', '@g', '-@g'; random initial sets; "
-        "ACCEPT_LICENSE streams over 6 licenses and 4 groups (incl. a missing one, groups produced by the real Licenses class from nested/missing/"
-        "cyclic group files); collapsed_restrict_to_data over real restrictions of all six kinds, each object asked a sequence of 1-8 queries "
+        "ACCEPT_LICENSE streams over 7 licenses and up to 6 groups whose names overlap (groups called like a license, a license called like a "
+        "group, a missing group; groups produced by the real Licenses class from nested/missing/cyclic group files); collapsed_restrict_to_data over real restrictions of all six kinds, each object asked a sequence of 1-8 queries "
         "(packages matched by nothing / freeform entries only / atoms, with and without pre_defaults and force_copy) and every answer also "
         "compared with a fresh object's; non-trivial = the stream has a -* or touches "
         "some flag/license at least twice")
@@ -91,6 +91,13 @@ CORPUS_LIC = [
     ["*"], ["-*"], ["@g1"], ["-@g1"], ["@"], ["-@"], ["-"], ["*", "-@g1"], ["@g1", "-L1"], ["-L1", "@g1"], ["@missing"], ["-@missing", "L1"],
     ["*", "-*", "L2"], ["L1", "@g2", "-@g1", "*", "-L3"], ["@g3", "-@g2"], ["--x"], ["-@g1", "@g1"], ["@@g1"], ["-*", "@"], ["@", "-*"],
 ]
+# license names and license-group names are separate namespaces: a group may be called like a license (and the other way round);
+# evaluated against the group file SHARED_NAMES_SPEC below
+CORPUS_LIC_SHARED = [
+    ["L1", "-@L1"], ["@L1", "-L1"], ["*", "-@L1"], ["g1", "-@g1"], ["@g1", "-g1"], ["L1", "@L1", "-@L2", "-L2"], ["-@L1", "L1"],
+    ["L1", "-@nosuch", "nosuch", "-@nosuch"], ["@L2", "-@L1", "g1"], ["*", "-@g1", "-@L2"],
+]
+SHARED_NAMES_SPEC = {"L1": ["L2", "L3"], "g1": ["L1", "@L1"], "L2": ["g1", "L4"]}
 
 _CHILD = r'''
 import sys, logging
@@ -214,6 +221,10 @@ def run(ctx):
     try:
         from pkgcore.ebuild.repo_objs import Licenses
         LIC = ["L1", "L2", "L3", "L4", "L5", "L6"]
+        # the two namespaces overlap: a license file called like a group, groups called like licenses
+        LIC_FILES = LIC + ["g1"]
+        GROUP_NAMES = ["g1", "g2", "g3", "g4"]
+        GROUP_REFS = GROUP_NAMES + ["nosuch", "L1", "L2"]
 
         class Repo:
             def __init__(self, loc):
@@ -224,7 +235,7 @@ def run(ctx):
             loc = tempfile.mkdtemp(dir=tmp)
             os.makedirs(os.path.join(loc, "profiles"))
             os.makedirs(os.path.join(loc, "licenses"))
-            for l in LIC:
+            for l in LIC_FILES:
                 open(os.path.join(loc, "licenses", l), "w").close()
             with open(os.path.join(loc, "profiles", "license_groups"), "w") as f:
                 for g, v in spec.items():
@@ -275,14 +286,19 @@ def run(ctx):
             {"g1": ["L1", "L2"], "g2": ["L3", "@g1"], "g3": ["@g2", "L4", "@nosuch"]},
             {"g1": ["L1"], "g2": ["@g1", "@g1", "L1"], "g3": ["@g4"], "g4": ["@g3"]},
             {"g1": ["@g2", "L1"], "g2": ["@g1", "L2"], "g3": ["@g3", "L3"]},
+            SHARED_NAMES_SPEC,
         ]
         for _ in range(ctx.n(12, 150)):
             spec = {}
-            names = ["g1", "g2", "g3", "g4"][: rng.randint(1, 4)]
+            names = GROUP_NAMES[: rng.randint(1, 4)]
+            if rng.random() < 0.6:
+                # groups called like a license
+                names = names + rng.sample(["L1", "L2"], rng.randint(1, 2))
+                rng.shuffle(names)
             for i, g in enumerate(names):
                 # nested (only towards later groups), self references and missing groups; longer cycles: see the probe below
                 refs = ["@" + n for n in names[i + 1:]] + ["@" + g, "@nosuch"]
-                spec[g] = [rng.choice(LIC + refs) for _ in range(rng.randint(1, 4))]
+                spec[g] = [rng.choice(LIC_FILES + refs) for _ in range(rng.randint(1, 4))]
             group_specs.append(spec)
         # open finding: a reference cycle through several groups that also carry licenses never finishes expanding
         hang_spec = {"g1": ["@g2", "L4"], "g2": ["L1", "@g3", "@g1"], "g3": ["@g4"], "g4": ["@g1", "@g4", "L6"]}
@@ -314,18 +330,25 @@ def run(ctx):
             pool.append((groups, known))
 
         lcases = [(toks, 0) for toks in CORPUS_LIC]
+        if len(pool) > 3:
+            lcases += [(toks, 3) for toks in CORPUS_LIC_SHARED]
+        if ctx.replay_cases:
+            for c in ctx.replay_cases:
+                if "license_tokens" in c and "groups" in c:
+                    pool.append(({g: set(v) for g, v in c["groups"].items()}, set(c.get("licenses", LIC_FILES))))
+                    lcases.insert(0, (list(c["license_tokens"]), len(pool) - 1))
         for _ in range(ctx.n(1500, 40000)):
             toks = []
             for _ in range(rng.randint(0, 9)):
                 r = rng.random()
                 if r < 0.3:
-                    toks.append(rng.choice(LIC))
+                    toks.append(rng.choice(LIC_FILES))
                 elif r < 0.5:
-                    toks.append("-" + rng.choice(LIC))
+                    toks.append("-" + rng.choice(LIC_FILES))
                 elif r < 0.68:
-                    toks.append("@" + rng.choice(["g1", "g2", "g3", "g4", "nosuch"]))
+                    toks.append("@" + rng.choice(GROUP_REFS))
                 elif r < 0.82:
-                    toks.append("-@" + rng.choice(["g1", "g2", "g3", "g4", "nosuch"]))
+                    toks.append("-@" + rng.choice(GROUP_REFS))
                 elif r < 0.9:
                     toks.append("*")
                 elif r < 0.96:
@@ -333,7 +356,7 @@ def run(ctx):
                 else:
                     toks.append(rng.choice(["-", "-@", "@", "--L1", "@@g1", "X"]))
             lcases.append((toks, rng.randrange(len(pool))))
-        lprobes = LIC + ["X", "*"]
+        lprobes = LIC_FILES + ["X", "nosuch", "*"]
         lreqs = []
         for toks, gi in lcases:
             groups, known = pool[gi]
@@ -341,7 +364,7 @@ def run(ctx):
                           "groups": [[g, sorted(v)] for g, v in sorted(groups.items())]})
         for (toks, gi), rep in zip(lcases, ctx.model(lreqs)):
             groups, known = pool[gi]
-            case = {"license_tokens": toks, "groups": {g: sorted(v) for g, v in groups.items()}}
+            case = {"license_tokens": toks, "groups": {g: sorted(v) for g, v in groups.items()}, "licenses": sorted(known)}
             if rep == "bad-op":
                 ctx.mismatch(case, "driver rejected the request")
                 continue
@@ -352,6 +375,9 @@ def run(ctx):
                 got = ("err", exc_name(e))
             want = ("ok", sorted(rep["res"]["ok"])) if "ok" in rep["res"] else ("err", rep["res"]["err"])
             ctx.count("license_" + got[0])
+            literal = {t.lstrip("-") for t in toks if t.lstrip("-")[:1] not in ("@", "*", "")}
+            if any(t.lstrip("-")[:1] == "@" and t.lstrip("-")[1:] in literal for t in toks):
+                ctx.count("license_stream_names_a_license_and_a_group_alike")
             if got != want:
                 ctx.mismatch(case, f"incremental_expansion_license gives {got}, the model {want}")
             if got[0] == "ok":
